@@ -76,6 +76,16 @@ func parseList(s string) map[uint64]bool {
 	return m
 }
 
+// limitMemory bounds the damage of an over-allocating decoder: the process
+// dies with "out of memory", the orchestrator attributes the death through the
+// journal. Race binaries are exempt (the detector reserves terabytes).
+func limitMemory() {
+	if props.Variant != "race" {
+		lim := uint64(6) << 30
+		_ = syscall.Setrlimit(syscall.RLIMIT_AS, &syscall.Rlimit{Cur: lim, Max: lim})
+	}
+}
+
 func workerMain(args []string) int {
 	fs := flag.NewFlagSet("worker", flag.ExitOnError)
 	propID := fs.String("prop", "", "")
@@ -106,17 +116,13 @@ func workerMain(args []string) int {
 		fmt.Fprintln(os.Stderr, "unknown engine", *engName)
 		return 2
 	}
-	if *variant != "race" {
-		// bound the damage of an over-allocating decoder: the worker dies, the
-		// orchestrator attributes the death through the journal
-		lim := uint64(6) << 30
-		_ = syscall.Setrlimit(syscall.RLIMIT_AS, &syscall.Rlimit{Cur: lim, Max: lim})
-	}
+	limitMemory()
 	findings, err := core.LoadFindings(*known)
 	if err != nil {
 		fmt.Fprintln(os.Stderr, "known findings:", err)
 		return 2
 	}
+	core.ActiveFindings = findings
 	var jf *os.File
 	if *journal != "" {
 		jf, err = os.OpenFile(*journal, os.O_CREATE|os.O_WRONLY|os.O_TRUNC, 0o644)
@@ -218,7 +224,28 @@ func workerMain(args []string) int {
 		}
 		for _, v := range out.Violations {
 			sum.VCounts[v.Class.String()]++
-			if findings.Known(v.Class) != nil && shrunk[v.Class] >= 1 {
+			if findings.Known(v.Class) != nil {
+				// a listed finding: one unminimised replay file per class is enough
+				if shrunk[v.Class] >= 1 {
+					continue
+				}
+				shrunk[v.Class]++
+				vals := core.Values(src.Rec)
+				ks := core.NewReplaySource(vals)
+				ko := core.Execute(p.ID, eng.Name, eng.Run, ks, true)
+				if !ko.HasClass(v.Class) {
+					sum.Trouble = append(sum.Trouble, fmt.Sprintf("run %d: known-finding class %s did not reproduce from its own trace", i, v.Class))
+					continue
+				}
+				rf := &core.ReplayFile{Property: p.ID, Engine: eng.Name, Variant: *variant, VerifSeed: *seed, Run: i, RunSeed: rs,
+					Class: v.Class, Msg: v.Msg, Digest: fmt.Sprintf("%016x", ko.Digest), Values: vals, Trace: ko.Lines}
+				if len(rf.Trace) > 200 {
+					rf.Trace = rf.Trace[:200]
+				}
+				path := filepath.Join(*replayDir, fmt.Sprintf("%s-%s-%016x-known.json", p.ID, eng.Name, core.HashString(v.Class.String())))
+				if err := rf.Write(path); err == nil {
+					sum.Violations = append(sum.Violations, VRec{Class: v.Class, Msg: v.Msg, Replay: path, Run: i, Engine: eng.Name, Digest: rf.Digest})
+				}
 				continue
 			}
 			if shrunk[v.Class] >= *maxShrink {
